@@ -148,7 +148,7 @@ fn trigger_ok(w: &World, n: usize, actor: &ActorId, v: u64) -> bool {
     match w.model[n].actors.get(&a).and_then(|am| am.versions.get(&v)) {
         None => false,
         Some(vm) => match vm.state {
-            VState::Partial => vm.covered(),
+            VState::Partial => vm.covered_some(),
             _ => true,
         },
     }
@@ -187,7 +187,7 @@ pub fn check_after_boot(w: &mut World, n: usize) -> VRes<()> {
     let mut expected = vec![];
     for (a, am) in w.model[n].actors.iter() {
         for (v, vm) in am.versions.iter() {
-            if vm.state == VState::Partial && vm.covered() {
+            if vm.state == VState::Partial && vm.covered_all() {
                 expected.push((*a, *v));
             }
         }
@@ -225,7 +225,7 @@ pub async fn check_node(w: &mut World, n: usize) -> StepRes {
     let cs = w.canon(&state);
     // --- C02 (a): advertised classes vs holdings model
     for a in 0..w.n() {
-        let (exp_head, exp_need, exp_partial): (u64, Vec<(u64, u64)>, BTreeMap<u64, Vec<(u64, u64)>>) =
+        let (exp_head, exp_need, exp_partial): (u64, Vec<(u64, u64)>, BTreeMap<u64, Vec<Vec<(u64, u64)>>>) =
             if a == n {
                 (w.own_head[n], vec![], BTreeMap::new())
             } else {
@@ -235,10 +235,7 @@ pub async fn check_node(w: &mut World, n: usize) -> StepRes {
                         let mut p = BTreeMap::new();
                         for (v, vm) in am.versions.iter() {
                             if vm.state == VState::Partial {
-                                let g = vm.gaps();
-                                if !g.is_empty() {
-                                    p.insert(*v, g);
-                                }
+                                p.insert(*v, vm.acceptable_gaps());
                             }
                         }
                         (am.head(), rs(&am.needed()), p)
@@ -287,12 +284,24 @@ pub async fn check_node(w: &mut World, n: usize) -> StepRes {
                 json!({"node": n, "actor": a, "advertised_need": got_need, "model_need": exp_need}),
             );
         }
-        if got_partial != exp_partial {
-            let class = partial_mismatch_class(w, n, a, &got_partial, &exp_partial);
+        let mut partial_ok = got_partial.keys().all(|v| exp_partial.contains_key(v));
+        for (v, alternatives) in exp_partial.iter() {
+            let got = got_partial.get(v).cloned().unwrap_or_default();
+            if !alternatives.contains(&got) {
+                partial_ok = false;
+            }
+        }
+        if !partial_ok {
+            let exp_first: BTreeMap<u64, Vec<(u64, u64)>> = exp_partial
+                .iter()
+                .filter(|(_, alts)| !alts[0].is_empty())
+                .map(|(v, alts)| (*v, alts[0].clone()))
+                .collect();
+            let class = partial_mismatch_class(w, n, a, &got_partial, &exp_first);
             return vio(
                 "C02",
                 &class,
-                json!({"node": n, "actor": a, "advertised_partial": got_partial, "model_partial": exp_partial}),
+                json!({"node": n, "actor": a, "advertised_partial": got_partial, "acceptable_partial": exp_partial}),
             );
         }
     }
@@ -784,6 +793,22 @@ pub async fn check_answers(
             }
         }
     }
+    // how often each version was requested (overlapping range requests are answered per request)
+    let mut mult: BTreeMap<(usize, u64), u32> = BTreeMap::new();
+    for (a, nd) in needs {
+        match nd {
+            SyncNeedV1::Full { versions } => {
+                for v in versions.start().0..=versions.end().0 {
+                    *mult.entry((*a, v)).or_default() += 1;
+                }
+            }
+            SyncNeedV1::Partial { version, .. } => {
+                *mult.entry((*a, version.0)).or_default() += 1;
+            }
+            SyncNeedV1::Empty { .. } => {}
+        }
+    }
+    let mut checked: BTreeSet<(usize, u64)> = BTreeSet::new();
     // per requested version
     let mut mentioned: BTreeSet<(usize, u64)> = BTreeSet::new();
     for (a, nd) in needs {
@@ -826,7 +851,41 @@ pub async fn check_answers(
                         }
                     })
             };
-            let chunks = full.get(&(*a, v)).cloned().unwrap_or_default();
+            if !checked.insert((*a, v)) {
+                continue;
+            }
+            let m = mult.get(&(*a, v)).copied().unwrap_or(1);
+            let mut chunks = full.get(&(*a, v)).cloned().unwrap_or_default();
+            if m > 1 {
+                // requested m times: every chunk may appear up to m times, identically
+                let mut counts: BTreeMap<(u64, u64), u32> = BTreeMap::new();
+                for c in chunks.iter() {
+                    *counts.entry((c.0, c.1)).or_default() += 1;
+                }
+                if counts.values().any(|c| *c > m) {
+                    return vio(
+                        "C08",
+                        "overlapping-chunks",
+                        json!({"server": s, "actor": a, "version": v, "requested_times": m,
+                               "ranges": chunks.iter().map(|c| (c.0, c.1)).collect::<Vec<_>>()}),
+                    );
+                }
+                let mut seen_r: BTreeSet<(u64, u64)> = BTreeSet::new();
+                let mut dedup = vec![];
+                for c in chunks.into_iter() {
+                    if seen_r.insert((c.0, c.1)) {
+                        dedup.push(c);
+                    } else if dedup.iter().any(|d: &(u64, u64, u64, &Vec<Change>)| d.0 == c.0 && d.1 == c.1 && d.3 != c.3) {
+                        return vio(
+                            "C05",
+                            "repeated-answer-differs",
+                            json!({"server": s, "actor": a, "version": v, "range": [c.0, c.1]}),
+                        );
+                    }
+                }
+                chunks = dedup;
+                w.stats.probe("c08.version-requested-twice");
+            }
             let declared_empty = empties.get(a).is_some_and(|e| e.contains(&v));
             // C08: ranges of one version never overlap
             let mut cover: BTreeMap<u64, u32> = BTreeMap::new();
@@ -1034,6 +1093,38 @@ fn range_list(s: &BTreeSet<u64>) -> Vec<(u64, u64)> {
         set.insert(*q..=*q);
     }
     rs(&set)
+}
+
+/// C08 (second sentence): sub-ranges of a version range request.
+pub fn check_chunk_range(
+    w: &mut World,
+    range: &std::ops::RangeInclusive<klukai_types::base::CrsqlDbVersion>,
+    parts: &[std::ops::RangeInclusive<klukai_types::base::CrsqlDbVersion>],
+) -> VRes<()> {
+    w.stats.oracle_checks += 1;
+    let mut union: RangeInclusiveSet<u64> = RangeInclusiveSet::new();
+    for p in parts {
+        if p.end() < p.start() || p.start() < range.start() || p.end() > range.end() {
+            return vio(
+                "C08",
+                "version-sub-range-outside-request",
+                json!({"requested": [range.start().0, range.end().0], "part": [p.start().0, p.end().0]}),
+            );
+        }
+        union.insert(p.start().0..=p.end().0);
+    }
+    let got = rs(&union);
+    if got != vec![(range.start().0, range.end().0)] {
+        return vio(
+            "C08",
+            "version-sub-ranges-do-not-cover-request",
+            json!({"requested": [range.start().0, range.end().0], "union": got}),
+        );
+    }
+    if parts.len() > 1 {
+        w.stats.probe("c08.version-range-split");
+    }
+    Ok(Ok(()))
 }
 
 // ---------------------------------------------------------------------------
